@@ -14,7 +14,8 @@ use lightning_signer::persist::Persist;
 use lightning_signer::policy::simple_validator::{make_default_simple_policy, SimpleValidatorFactory};
 use lightning_signer::policy::validator::EnforcementState;
 use lightning_signer::signer::derive::KeyDerivationStyle;
-use lightning_signer::tx::tx::CommitmentInfo2;
+use lightning_signer::lightning::types::payment::PaymentHash;
+use lightning_signer::tx::tx::{CommitmentInfo2, HTLCInfo2};
 use lightning_signer::util::clock::StandardClock;
 use lightning_signer::util::status::{Code, Status};
 use lightning_signer::util::test_utils::*;
@@ -33,24 +34,51 @@ pub const CHANNEL_VALUE: u64 = 3_000_000;
 const PEER: [u8; 33] = [2u8; 33];
 const DBID: u64 = 1;
 
-/// commitment contents (both sides): id → (to_holder, to_counterparty); no HTLCs, feerate 0
+/// commitment contents: id → (to_holder, to_counterparty); feerate 0.
+/// 0..=3: no HTLCs; 4..=8: holder commitments carrying 1..=5 received HTLCs of 10_000 sat
+/// (incoming payments: no invoice needed); 9: fee far out of range (policy-commitment-fee-range)
 pub fn content(c: u64) -> (u64, u64) {
     match c {
         0..=3 => (2_999_000 - 100 * c, 0),
-        // fee of 2M sat on ~724 weight units: far above max_feerate_per_kw → policy-commitment-fee-range
+        4..=8 => (2_980_000 - 10_100 * (c - 3), 0),
+        // fee of 2M sat on ~724 weight units: far above max_feerate_per_kw
         _ => (1_000_000, 0),
     }
 }
-pub fn content_policy_ok(c: u64) -> bool {
-    c <= 3
+/// number of HTLCs of a content
+pub fn content_htlcs(c: u64) -> u64 {
+    if (4..=8).contains(&c) { c - 3 } else { 0 }
 }
-fn content_id_of(to_holder: u64) -> u64 {
-    for c in 0..=3 {
-        if content(c).0 == to_holder {
+pub fn htlcs_of(c: u64) -> Vec<HTLCInfo2> {
+    (0..content_htlcs(c))
+        .map(|k| HTLCInfo2 { value_sat: 10_000, payment_hash: PaymentHash([k as u8 + 1; 32]), cltv_expiry: (k as u32 + 1) << 16 })
+        .collect()
+}
+pub const ALL_CONTENTS: [u64; 10] = [0, 1, 2, 3, 4, 5, 6, 7, 8, 9];
+/// verdict of the content rules for commitment number `n` (the initial commitment may not carry HTLCs)
+pub fn content_policy_ok(c: u64, n: u64) -> bool {
+    c <= 3 || ((4..=8).contains(&c) && n != 0)
+}
+fn content_id_of(to_holder: u64, htlcs: usize) -> u64 {
+    for c in ALL_CONTENTS {
+        if content(c).0 == to_holder && content_htlcs(c) as usize == htlcs {
             return c;
         }
     }
-    if to_holder == 1_000_000 { 9 } else { 999 }
+    999
+}
+/// the fact `check_holder_tx_signatures` is expected to establish for signature variant `v` on a
+/// content with `h` HTLCs: 1 = valid, 0 = invalid, 2 = out-of-bounds panic (see `SigFact`)
+pub fn sig_fact(v: u64, h: u64) -> u64 {
+    match v {
+        1 => 1,                                   // all genuine
+        0 => 0,                                   // commitment signature of another content
+        2 | 3 | 4 => if h >= 1 { 0 } else { 1 },  // first / middle / last HTLC signature wrong
+        5 | 6 => if h >= 1 { 2 } else { 1 },      // list too short: empty / n-1 genuine ones
+        7 => 1,                                   // one surplus signature (ignored by the code)
+        8 => if h >= 2 { 0 } else { 1 },          // first and last swapped
+        _ => 1,
+    }
 }
 
 #[derive(Default)]
@@ -226,7 +254,7 @@ impl World {
             None => "-".into(),
             Some(i) => {
                 let v = if holder { i.to_broadcaster_value_sat } else { i.to_countersigner_value_sat };
-                if !i.offered_htlcs.is_empty() || !i.received_htlcs.is_empty() { "998".into() } else { content_id_of(v).to_string() }
+                if !i.offered_htlcs.is_empty() { "998".into() } else { content_id_of(v, i.received_htlcs.len()).to_string() }
             }
         }
     }
@@ -381,9 +409,9 @@ impl World {
 
     // ---- request builders -----------------------------------------------------------------
 
-    /// real counterparty signature on holder commitment `n` with content `c` (None if the signer
-    /// refuses to hand out the point of `n`, i.e. `n > next + 1`)
-    fn holder_commitment(&self, n: u64, c: u64) -> Option<(TestCommitmentTxContext, Signature)> {
+    /// real counterparty signatures (commitment + one per HTLC) on holder commitment `n` with content
+    /// `c` (None if the signer refuses to hand out the point of `n`, i.e. `n > next + 1`)
+    fn holder_commitment(&self, n: u64, c: u64) -> Option<(TestCommitmentTxContext, Signature, Vec<Signature>)> {
         let nc = self.node_ctx();
         let cc = self.chan_ctx();
         let (th, tc) = content(c);
@@ -391,9 +419,9 @@ impl World {
         if !ok {
             return None;
         }
-        let mut ctx = channel_commitment(&nc, &cc, n, 0, th, tc, vec![], vec![]);
-        let (sig, _h) = counterparty_sign_holder_commitment(&nc, &cc, &mut ctx);
-        Some((ctx, sig))
+        let mut ctx = channel_commitment(&nc, &cc, n, 0, th, tc, vec![], htlcs_of(c));
+        let (sig, hs) = counterparty_sign_holder_commitment(&nc, &cc, &mut ctx);
+        Some((ctx, sig, hs))
     }
 
     fn dummy_sig(&self) -> Signature {
@@ -402,50 +430,142 @@ impl World {
         self.secp.sign_ecdsa(&m, &sk)
     }
 
-    /// (content ctx, signature as requested by `s`): s=1 the genuine signature, s=0 a genuine
-    /// counterparty signature on a different content (does not verify for this request)
-    fn validate_inputs(&self, n: u64, c: u64, s: bool) -> (Option<TestCommitmentTxContext>, Signature) {
+    /// the request's signatures for variant `v` (see `sig_fact`); every "wrong" signature is a genuine
+    /// counterparty signature over something else
+    fn validate_inputs(&self, n: u64, c: u64, v: u64) -> (Option<TestCommitmentTxContext>, Signature, Vec<Signature>) {
         match self.holder_commitment(n, c) {
-            None => (None, self.dummy_sig()),
-            Some((ctx, sig)) =>
-                if s {
-                    (Some(ctx), sig)
-                } else {
-                    let other = self.holder_commitment(n, (c + 1) % 4).unwrap().1;
-                    (Some(ctx), other)
-                },
+            None => (None, self.dummy_sig(), vec![]),
+            Some((ctx, sig, mut hs)) => {
+                let h = hs.len();
+                let mut csig = sig;
+                match v {
+                    0 => csig = self.holder_commitment(n, (c + 1) % 4).unwrap().1,
+                    2 if h >= 1 => hs[0] = sig,
+                    3 if h >= 1 => hs[h / 2] = sig,
+                    4 if h >= 1 => hs[h - 1] = sig,
+                    5 => hs.clear(),
+                    6 if h >= 1 => hs.truncate(h - 1),
+                    7 => hs.push(sig),
+                    8 if h >= 2 => hs.swap(0, h - 1),
+                    _ => {}
+                }
+                (Some(ctx), csig, hs)
+            }
         }
     }
 
-    fn do_validate(&mut self, n: u64, c: u64, s: bool, phase: u64) -> Result<(), Status> {
-        let (ctx, sig) = self.validate_inputs(n, c, s);
+    /// Independent evaluation of "the counterparty signatures verify on the transactions rebuilt for
+    /// this commitment": the commitment signature against the funding sighash, and for EVERY HTLC of the
+    /// transaction a signature at its position that verifies against the HTLC transaction built here.
+    /// Returns (fully_verifies, fact) with fact as in `sig_fact` (what the signer's loop should meet).
+    fn verify_sigs(&self, ctx: &TestCommitmentTxContext, csig: &Signature, hsigs: &[Signature]) -> (bool, u64) {
+        use lightning_signer::bitcoin::sighash::{EcdsaSighashType, SighashCache};
+        use lightning_signer::bitcoin::Amount;
+        use lightning_signer::lightning::ln::chan_utils::{build_htlc_transaction, derive_private_key, get_htlc_redeemscript, make_funding_redeemscript};
+        let cc = self.chan_ctx();
+        let secp = &self.secp;
+        self.node
+            .with_channel(&self.channel_id, |chan| {
+                let tx = ctx.tx.as_ref().unwrap();
+                let trusted = tx.trust();
+                let keys = trusted.keys();
+                let built = trusted.built_transaction();
+                let redeem = make_funding_redeemscript(&chan.keys.pubkeys().funding_pubkey, &chan.counterparty_pubkeys().funding_pubkey);
+                let sighash = built.get_sighash_all(&redeem, cc.setup.channel_value_sat);
+                let cp_funding = PublicKey::from_secret_key(secp, &cc.counterparty_keys.funding_key);
+                if secp.verify_ecdsa(&sighash, csig, &cp_funding).is_err() {
+                    return Ok((false, 0));
+                }
+                let point = chan.get_per_commitment_point(ctx.commit_num)?;
+                let cp_htlc_key = derive_private_key(secp, &point, &cc.counterparty_keys.htlc_base_key);
+                let cp_htlc_pub = PublicKey::from_secret_key(secp, &cp_htlc_key);
+                let mut fact = 1u64;
+                let mut all = true;
+                for (i, htlc) in tx.htlcs().iter().enumerate() {
+                    let htlc_tx = build_htlc_transaction(
+                        &built.txid,
+                        0,
+                        cc.setup.counterparty_selected_contest_delay,
+                        htlc,
+                        &cc.setup.features(),
+                        &keys.broadcaster_delayed_payment_key,
+                        &keys.revocation_key,
+                    );
+                    let script = get_htlc_redeemscript(htlc, &cc.setup.features(), &keys);
+                    let sh = lightning_signer::bitcoin::secp256k1::Message::from_digest(
+                        {
+                            use lightning_signer::bitcoin::hashes::Hash;
+                            SighashCache::new(&htlc_tx)
+                                .p2wsh_signature_hash(0, &script, Amount::from_sat(htlc.amount_msat / 1000), EcdsaSighashType::All)
+                                .unwrap()
+                                .to_byte_array()
+                        },
+                    );
+                    match hsigs.get(i) {
+                        None => {
+                            all = false;
+                            if fact == 1 {
+                                fact = 2; // the signer's index loop runs past the end here
+                            }
+                        }
+                        Some(sg) =>
+                            if secp.verify_ecdsa(&sh, sg, &cp_htlc_pub).is_err() {
+                                all = false;
+                                if fact == 1 {
+                                    fact = 0;
+                                }
+                            },
+                    }
+                }
+                Ok((all, fact))
+            })
+            .unwrap_or((false, 0))
+    }
+
+    /// returns (result, fully_verifies)
+    fn do_validate(&mut self, n: u64, c: u64, v: u64, phase: u64, expect_fact: u64) -> (Result<(), Status>, bool) {
+        let (ctx, sig, hsigs) = self.validate_inputs(n, c, v);
         let (th, tc) = content(c);
+        let received = htlcs_of(c);
+        let full = match &ctx {
+            Some(ctx) => {
+                let (full, fact) = self.verify_sigs(ctx, &sig, &hsigs);
+                if fact != expect_fact {
+                    self.tags.insert(format!("HARNESS-sigfact-mismatch:{}vs{}", fact, expect_fact));
+                }
+                full
+            }
+            None => false,
+        };
         if phase == 1 {
             if let Some(ctx) = ctx {
                 let tx = ctx.tx.as_ref().unwrap().trust().built_transaction().transaction.clone();
-                return self.node.with_channel(&self.channel_id, |chan| {
+                let r = self.node.with_channel(&self.channel_id, |chan| {
                     let params = chan.make_channel_parameters();
                     let parameters = params.as_holder_broadcastable();
                     let trusted = ctx.tx.as_ref().unwrap().trust();
                     let keys = trusted.keys();
+                    let htlcs = Channel::htlcs_info2_to_oic(&vec![], &received);
                     let scripts = build_tx_scripts(
                         keys,
                         th,
                         tc,
-                        &vec![],
+                        &htlcs,
                         &parameters,
                         &chan.keys.pubkeys().funding_pubkey,
                         &chan.setup.counterparty_points.funding_pubkey,
                     )
                     .expect("scripts");
                     let wit: Vec<Vec<u8>> = scripts.iter().map(|s| s.as_bytes().to_vec()).collect();
-                    chan.validate_holder_commitment_tx(&tx, &wit, n, 0, vec![], vec![], &sig, &[])
+                    chan.validate_holder_commitment_tx(&tx, &wit, n, 0, vec![], received.clone(), &sig, &hsigs)
                 });
+                return (r, full);
             }
         }
-        self.node.with_channel(&self.channel_id, |chan| {
-            chan.validate_holder_commitment_tx_phase2(n, 0, th, tc, vec![], vec![], &sig, &[])
-        })
+        let r = self.node.with_channel(&self.channel_id, |chan| {
+            chan.validate_holder_commitment_tx_phase2(n, 0, th, tc, vec![], received.clone(), &sig, &hsigs)
+        });
+        (r, full)
     }
 
     fn cp_point(&mut self, n: u64, kind: u64) -> PublicKey {
@@ -533,11 +653,15 @@ impl World {
                     if !ready {
                         return self.node.with_channel(&self.channel_id, |_| Ok(())).map(|_| "ok".to_string()).map_err(|e| class_of(&e));
                     }
-                    let (n, c, s, ph) = (num(1), num(2), num(3) == 1, num(5));
-                    match self.do_validate(n, c, s, ph) {
+                    // validate n c fact p phase variant
+                    let (n, c, fact, ph, v) = (num(1), num(2), num(3), num(5), if t.len() > 6 { num(6) } else { num(3) });
+                    let (r, full) = self.do_validate(n, c, v, ph, fact);
+                    match r {
                         Ok(()) => {
-                            if s {
+                            if full {
                                 self.mon.accepted_valid.insert(n);
+                            } else {
+                                self.tags.insert("validate:accepted-not-fully-signed".into());
                             }
                             Ok("ok".into())
                         }
@@ -573,13 +697,13 @@ impl World {
                             let next = self.estate().unwrap().next_holder_commit_num;
                             let mut found = None;
                             for n in next.saturating_sub(3)..=next + 1 {
-                                for c in [0u64, 1, 2, 3, 9] {
+                                for c in ALL_CONTENTS {
                                     let ok = self.node.with_channel(&self.channel_id, |ch| ch.get_per_commitment_point(n)).is_ok();
                                     if !ok {
                                         continue;
                                     }
                                     let (th, tc) = content(c);
-                                    let ctx = channel_commitment(&self.node_ctx(), &self.chan_ctx(), n, 0, th, tc, vec![], vec![]);
+                                    let ctx = channel_commitment(&self.node_ctx(), &self.chan_ctx(), n, 0, th, tc, vec![], htlcs_of(c));
                                     let cand = ctx.tx.as_ref().unwrap().trust().built_transaction().transaction.clone();
                                     if cand.compute_txid() == tx.compute_txid() {
                                         found = Some(n);
@@ -603,7 +727,7 @@ impl World {
                 "signredundant" => {
                     let (n, c) = (num(1), num(2));
                     let (th, tc) = content(c);
-                    match self.node.with_channel(&self.channel_id, |chan| chan.sign_holder_commitment_tx_phase2_redundant(n, 0, th, tc, vec![], vec![])) {
+                    match self.node.with_channel(&self.channel_id, |chan| chan.sign_holder_commitment_tx_phase2_redundant(n, 0, th, tc, vec![], htlcs_of(c))) {
                         Ok(_) => {
                             self.on_holder_sig(n, "sign_holder_commitment_tx_phase2_redundant");
                             Ok(format!("ok signed={}", n))
@@ -612,7 +736,7 @@ impl World {
                     }
                 }
                 "mutualclose" => {
-                    let good = num(1) == 1;
+                    let good = if t.len() > 3 { num(3) == 1 } else { num(1) == 1 };
                     let path = DerivationPath::from(vec![lightning_signer::bitcoin::bip32::ChildNumber::from_normal_idx(7).unwrap()]);
                     let script = { use lightning_signer::wallet::Wallet; self.node.get_native_address(&path).unwrap().script_pubkey() };
                     let cps = lightning_signer::bitcoin::ScriptBuf::from_hex("0014be56df7de366ad8ee9ccdad54e9a9993e99ef565").unwrap();
@@ -677,18 +801,42 @@ impl World {
                     }
                 }
                 "hvalidate" => {
-                    let (ver, n, c, s) = (num(1) as u32, num(2), num(3), num(4) == 1);
+                    // hvalidate ver n c fact p variant
+                    let (ver, n, c, fact, v) = (num(1) as u32, num(2), num(3), num(4), if t.len() > 6 { num(6) } else { num(4) });
                     let (th, tc) = content(c);
-                    let sig = if ready { self.validate_inputs(n, c, s).1 } else { self.dummy_sig() };
+                    let (ctx, sig, hsigs) = if ready { self.validate_inputs(n, c, v) } else { (None, self.dummy_sig(), vec![]) };
+                    let s = match &ctx {
+                        Some(ctx) => {
+                            let (full, f) = self.verify_sigs(ctx, &sig, &hsigs);
+                            if f != fact {
+                                self.tags.insert(format!("HARNESS-sigfact-mismatch:{}vs{}", f, fact));
+                            }
+                            full
+                        }
+                        None => false,
+                    };
                     let h = self.handler(ver);
+                    let wire_htlcs: Vec<vls_protocol::model::Htlc> = htlcs_of(c)
+                        .iter()
+                        .map(|x| vls_protocol::model::Htlc {
+                            side: vls_protocol::model::Htlc::REMOTE,
+                            amount: x.value_sat * 1000,
+                            payment_hash: vls_protocol::model::Sha256(x.payment_hash.0),
+                            ctlv_expiry: x.cltv_expiry,
+                        })
+                        .collect();
                     let m = msgs::ValidateCommitmentTx2 {
                         commitment_number: n,
                         feerate: 0,
                         to_local_value_sat: th,
                         to_remote_value_sat: tc,
-                        htlcs: vec![].into(),
+                        htlcs: wire_htlcs.into(),
                         signature: BitcoinSignature { signature: WireSig(sig.serialize_compact()), sighash: 1 },
-                        htlc_signatures: vec![].into(),
+                        htlc_signatures: hsigs
+                            .iter()
+                            .map(|x| BitcoinSignature { signature: WireSig(x.serialize_compact()), sighash: 1 })
+                            .collect::<Vec<_>>()
+                            .into(),
                     };
                     // the validate part counts as accepted iff next_holder_commit_info / the reply says so:
                     // observe acceptance through the state (the composite may fail in its second half)
@@ -704,6 +852,8 @@ impl World {
                     };
                     if validated && s {
                         self.mon.accepted_valid.insert(n);
+                    } else if validated {
+                        self.tags.insert("validate:accepted-not-fully-signed".into());
                     }
                     match r {
                         Ok(rep) => match self.reply(rep) {
